@@ -62,6 +62,7 @@ def run(res, programs, tier):
         _r20_3(res, P, cfgname)
         _r20_4(res, P, cfgname)
         _r20_7(res, P, cfgname)
+        _r20_8(res, P, cfgname)
     for P in programs:
         if "dashu_int" in P.units:
             _r20_5(res, P, P.name)
@@ -330,6 +331,33 @@ def _r20_7(res, P, cfgname):
         else:
             res.fail("R20.7", cfgname, key, "%s checks something inside a debug assertion only: a release-built proc-macro skips it, so a literal rejected (or a value produced) in the dev profile differs in the release profile" % f["p"], span_loc(f["sp"]))
     res.floor("R20.7", cfgname, n, 20, "function bodies of the macro crate")
+
+
+# R20.8: rbig!(..) and rbig!(~..) differ only in whether the fraction is reduced: the canonical and the
+# relaxed branch of the ratio parser must build their value through the same-named constructor from the
+# same argument terms (signs of numerator and denominator included).
+def _r20_8(res, P, cfgname):
+    res.rule("R20.8", "the RBig and the Relaxed branch of parse_ratio_with_error call the same-named constructors / accessors with identical argument terms")
+    f = next((g for g in P.fns(M) if g["p"].endswith("::parse_ratio_with_error")), None)
+    if f is None:
+        res.anchor("R20.8", cfgname, "fn parse_ratio_with_error")
+        return
+    S = sym.Sym(f)
+    calls = {"RBig": [], "Relaxed": []}
+    for bb, t, fr in mir.iter_calls(f["mir"]):
+        cp = fr and (fr.get("rp") or fr["p"]) or ""
+        for ty in calls:
+            if ("rbig::%s::" % ty) in cp or ("rbig::%s>::" % ty) in cp:
+                args = tuple(sym.term_str(S.operand(a), 600).replace("rbig::Relaxed", "rbig::T").replace("rbig::RBig", "rbig::T") for a in t["a"])
+                calls[ty].append((cp.rsplit("::", 1)[-1], args))
+    key = "parse_ratio_with_error: RBig ~ Relaxed construction"
+    if not calls["RBig"] or not calls["Relaxed"]:
+        res.anchor("R20.8", cfgname, key)
+    elif sorted(calls["RBig"]) == sorted(calls["Relaxed"]):
+        res.ok("R20.8", cfgname, key, sample=dict(function=f["p"], constructors=sorted({c for c, _ in calls["RBig"]})))
+    else:
+        res.fail("R20.8", cfgname, key, "the relaxed branch builds its value with %s but the canonical branch with %s (or from different argument terms): rbig!(~x) and rbig!(x) would denote different numbers for some sign combination" % (
+            sorted({c for c, _ in calls["Relaxed"]}), sorted({c for c, _ in calls["RBig"]})), span_loc(f["sp"]))
 
 
 def _r20_3b(res, P, cfgname):
